@@ -316,8 +316,11 @@ func encodeInto(w *wr, p rtcp.Packet, d Dialect) error {
 				if mb.Received {
 					word = 1<<15 | uint16(mb.ECN)<<13 | mb.ArrivalTimeOffset
 				} else {
-					// not received: the remaining 15 bits are zero for a canonical value
-					word = uint16(mb.ECN)<<13 | mb.ArrivalTimeOffset
+					// not received: D holds canonical values only (ECN and offset zero)
+					if mb.ECN != 0 || mb.ArrivalTimeOffset != 0 {
+						return ErrOutsideDomain
+					}
+					word = 0
 				}
 				w.u16(fmt.Sprintf("%smetric[%d]", pre, j), word)
 			}
@@ -468,8 +471,8 @@ func encodeXRBlock(w *wr, rb rtcp.ReportBlock) error {
 		w.u16("jb_maximum", b.JBMaximum)
 		w.u16("jb_abs_max", b.JBAbsMax)
 	case *rtcp.UnknownReportBlock:
-		if len(b.Bytes)%4 != 0 {
-			return ErrOutsideDomain
+		if len(b.Bytes)%4 != 0 || (b.BlockType >= 1 && b.BlockType <= 7) {
+			return ErrOutsideDomain // an unknown block has an unregistered type (0, 8..255)
 		}
 		blockHdr(uint8(b.BlockType), uint8(b.TypeSpecific))
 		w.put("bytes", b.Bytes...)
